@@ -258,6 +258,238 @@ func TestVerifC11(t *testing.T) {
 		rec.nontrivial(hashAny(sc))
 		rec.sample(sc.Part, 2, sc)
 	}
+
+	// ---- a neighbour whose transmit path hardly drains (real time, loopback UDP) ----
+	// One accepted session has a rate limit, a huge send window and a bulk write
+	// pending, so its transmit queue stays full. The other sessions of the
+	// listener and new peers must not notice. Real time, because the failure this
+	// looks for is one goroutine holding a session lock while the listener's
+	// receive goroutine waits for it — a state in which a synctest bubble's
+	// clock stands still.
+	for q := 0; q < env.pickN(8, 64); q++ {
+		idx := caseIdx
+		caseIdx++
+		if !env.mine(idx) {
+			continue
+		}
+		rng := rec.seed(uint64(idx), 112)
+		desc := map[string]any{"case": idx, "part": "throttled-neighbour", "cipher": pick(rng, []string{"", "aes-128", "salsa20", "aes-128-gcm"}), "fec": rng.chance(0.5), "neighbours": rng.between(2, 4)}
+		rec.beginCase(desc)
+		runThrottledNeighbour(rec, desc, rng)
+		rec.eval(1)
+		rec.nontrivial(hashAny(desc))
+		rec.sample("throttled-neighbour", 1, desc)
+	}
+}
+
+func runThrottledNeighbour(rec *vrec, desc map[string]any, rng *vrng) {
+	installHooks()
+	schedBubbleMode.Store(false)
+	spec := cipherByName(desc["cipher"].(string))
+	var key []byte
+	if spec != nil {
+		key = rng.bytes(spec.keyLen)
+	}
+	mk := func() BlockCrypt {
+		if spec == nil {
+			return nil
+		}
+		b, _ := spec.mk(key)
+		return b
+	}
+	d, p := 0, 0
+	if desc["fec"].(bool) {
+		d, p = 3, 1
+	}
+	l, err := ListenWithOptions("127.0.0.1:0", mk(), d, p)
+	if err != nil {
+		rec.inconcl("throttled-neighbour: listen: " + err.Error())
+		return
+	}
+	defer l.Close()
+	// machine-stall monitor
+	var maxOver atomic.Int64
+	stopMon := make(chan struct{})
+	var monWg sync.WaitGroup
+	monWg.Add(1)
+	go func() {
+		defer monWg.Done()
+		for {
+			select {
+			case <-stopMon:
+				return
+			default:
+			}
+			t0 := time.Now()
+			time.Sleep(time.Millisecond)
+			if o := int64(time.Since(t0) - time.Millisecond); o > maxOver.Load() {
+				maxOver.Store(o)
+			}
+		}
+	}()
+	const echoLen = 6000
+	var first atomic.Bool
+	var throttledSrv atomic.Pointer[UDPSession]
+	var wg sync.WaitGroup
+	go func() {
+		for {
+			s, err := l.AcceptKCP()
+			if err != nil {
+				return
+			}
+			s.SetNoDelay(1, 10, 2, 1)
+			if first.CompareAndSwap(false, true) {
+				// the throttled one: 20 kB/s, 4096-segment window, 24 MB to send
+				s.SetWindowSize(4096, 128)
+				s.SetRateLimit(20000)
+				throttledSrv.Store(s)
+				wg.Add(1)
+				go func() {
+					defer wg.Done()
+					buf := make([]byte, 8192)
+					for i := 0; i < 3000; i++ {
+						if _, err := s.Write(buf); err != nil {
+							return
+						}
+					}
+				}()
+				continue
+			}
+			s.SetWindowSize(128, 128)
+			wg.Add(1)
+			go func() {
+				defer wg.Done()
+				defer s.Close()
+				buf := make([]byte, 2048)
+				got := 0
+				for got < echoLen {
+					s.SetReadDeadline(time.Now().Add(60 * time.Second))
+					n, err := s.Read(buf)
+					if err != nil {
+						return
+					}
+					got += n
+				}
+				out := make([]byte, echoLen/2)
+				fillContent(0xC11, 0, out)
+				s.Write(out)
+				time.Sleep(200 * time.Millisecond)
+			}()
+		}
+	}()
+	a, err := DialWithOptions(l.Addr().String(), mk(), d, p)
+	if err != nil {
+		rec.inconcl("throttled-neighbour: dial: " + err.Error())
+		close(stopMon)
+		monWg.Wait()
+		return
+	}
+	a.SetNoDelay(1, 10, 2, 1)
+	a.SetWindowSize(128, 4096)
+	a.Write([]byte("start"))
+	wg.Add(1)
+	go func() {
+		defer wg.Done()
+		buf := make([]byte, 65536)
+		for {
+			if _, err := a.Read(buf); err != nil {
+				return
+			}
+		}
+	}()
+	time.Sleep(1500 * time.Millisecond) // its transmit queue fills
+	depth := 0
+	if s := throttledSrv.Load(); s != nil {
+		depth = len(s.chPostProcessing)
+	}
+	rec.maxCount("throttled_session_tx_queue_depth", int64(depth))
+	// the neighbours: new peers that connect now and exchange a little data
+	nn := desc["neighbours"].(int)
+	type res struct {
+		ok   bool
+		what string
+		took time.Duration
+	}
+	results := make(chan res, nn)
+	var clients []*UDPSession
+	var cmu sync.Mutex
+	for i := 0; i < nn; i++ {
+		go func(i int) {
+			t0 := time.Now()
+			c, err := DialWithOptions(l.Addr().String(), mk(), d, p)
+			if err != nil {
+				results <- res{true, "dial failed (not judged): " + err.Error(), 0}
+				return
+			}
+			cmu.Lock()
+			clients = append(clients, c)
+			cmu.Unlock()
+			c.SetNoDelay(1, 10, 2, 1)
+			c.SetWindowSize(128, 128)
+			c.SetDeadline(time.Now().Add(20 * time.Second))
+			if _, err := c.Write(make([]byte, echoLen)); err != nil {
+				results <- res{false, "write: " + err.Error(), time.Since(t0)}
+				return
+			}
+			buf := make([]byte, 4096)
+			got := 0
+			for got < echoLen/2 {
+				n, err := c.Read(buf)
+				if err != nil {
+					results <- res{false, fmt.Sprintf("read after %d of %d bytes: %v", got, echoLen/2, err), time.Since(t0)}
+					return
+				}
+				if k := checkContent(0xC11, uint64(got), buf[:n]); k >= 0 {
+					results <- res{false, fmt.Sprintf("reply differs at byte %d", got+k), time.Since(t0)}
+					return
+				}
+				got += n
+			}
+			results <- res{true, "", time.Since(t0)}
+		}(i)
+	}
+	var bad []string
+	var slowest time.Duration
+	for i := 0; i < nn; i++ {
+		r := <-results
+		if !r.ok {
+			bad = append(bad, r.what)
+		}
+		if r.took > slowest {
+			slowest = r.took
+		}
+	}
+	close(stopMon)
+	monWg.Wait()
+	rec.maxCount("throttled_neighbour_slowest_exchange_ms", slowest.Milliseconds())
+	rec.count("throttled_neighbour_scenarios", 1)
+	if len(bad) > 0 {
+		if over := time.Duration(maxOver.Load()); over > 100*time.Millisecond {
+			rec.inconcl(fmt.Sprintf("throttled-neighbour case %v: neighbours failed but the machine stalled (1 ms sleep overshot by %v)", desc["case"], over))
+		} else if depth == 0 {
+			rec.inconcl(fmt.Sprintf("throttled-neighbour case %v: the throttled session never came up", desc["case"]))
+		} else {
+			rec.violationf(desc, "C11 a session sharing the socket stalled", "a neighbour of a session whose transmit queue is full (%d packets queued behind a 20 kB/s rate limit) could not exchange %d bytes within 20 s on loopback: %v (1 ms sleeps overshot by at most %v)", depth, echoLen, bad, time.Duration(maxOver.Load()))
+		}
+	}
+	// shut down
+	l.Close()
+	a.Close()
+	if s := throttledSrv.Load(); s != nil {
+		s.Close()
+	}
+	cmu.Lock()
+	for _, c := range clients {
+		c.Close()
+	}
+	cmu.Unlock()
+	done := make(chan struct{})
+	go func() { wg.Wait(); close(done) }()
+	select {
+	case <-done:
+	case <-time.After(30 * time.Second):
+		rec.inconcl("throttled-neighbour: handlers still running 30 s after everything was closed")
+	}
 }
 
 func runC11(t *testing.T, rec *vrec, sc *c11Scenario, rng *vrng) {
@@ -474,6 +706,13 @@ func runC11(t *testing.T, rec *vrec, sc *c11Scenario, rng *vrng) {
 			// address must be ignored
 			d := own[rng.intn(len(own))]
 			third := w.addr(byte(200+rng.intn(50)), 9500+k)
+			switch rng.intn(3) {
+			case 0:
+				third = w.addr(1, 4001+k) // the peer's host, another port
+				rec.count("injected_into_dialled_session_from_the_peers_host_other_port", 1)
+			case 1:
+				third = w.addr(byte(200+rng.intn(50)), 4000) // another host, the peer's port
+			}
 			s1 := sessionSnapshot(victim.sess)
 			m1 := DefaultSnmp.Copy()
 			w.hub.inject(third, victim.addr.String(), d)
